@@ -500,6 +500,15 @@ func (c10Prop) Gen(seed uint64, tier string, i int) Case {
 	}
 	c.Engine.Procs = Pick(r, []int{2, 4, 8, 16})
 	c.Engine.Opt = Pick(r, []string{"none", "default"})
+	if r.P(0.25) {
+		// the lookback in force (the engine's, or one given for this query only) applies to every part
+		// of the plan, wherever it is evaluated
+		c.Engine.LookbackMs = Pick(r, []int64{1000, 30_000, 60_000, 420_001})
+		if r.P(0.5) {
+			c.Engine.LookbackMs = 0
+			c.Engine.QueryLookbackMs = Pick(r, []int64{1000, 30_000, 60_000, 120_000, 420_001})
+		}
+	}
 	if GlobalAvoid["dist:optimizers"] {
 		c.Engine.Opt = "none"
 	}
@@ -547,30 +556,26 @@ func (c10Prop) Gen(seed uint64, tier string, i int) Case {
 		if len(ds.Series) == 0 {
 			ds.Series = append(ds.Series, Series{Labels: map[string]string{"__name__": "m0", "a": "x"}, Samples: GenSamples(r, c.Window, 0, false)})
 		}
-		n0 := len(ds.Series)
 		AddTwin(r, &ds, c.Window, 0, false, r.P(0.7))
+		ds.Normalize() // a twin whose label set exists already is dropped
 		c.Dataset = ds
 		c.NParts = 2 + r.Intn(2)
 		c.Parts = nil
-		for k := range c.Dataset.Series {
+		for range c.Dataset.Series {
 			c.Parts = append(c.Parts, r.Intn(c.NParts))
-			if k >= n0 {
-				c.Parts[k] = (c.Parts[0] + 1) % c.NParts // provisional, fixed below
-			}
 		}
-		// the twin is the last series; put it into another partition than its source (the series with
-		// the same labels but for the name)
-		if len(c.Dataset.Series) > n0 {
-			tw := c.Dataset.Series[len(c.Dataset.Series)-1]
-			for k, sr := range c.Dataset.Series[:n0] {
-				same := len(sr.Labels) == len(tw.Labels)
-				for ln, lv := range sr.Labels {
-					if ln != "__name__" && tw.Labels[ln] != lv {
+		// series that differ in the metric name only go to different partitions
+		for i, si := range c.Dataset.Series {
+			for j := i + 1; j < len(c.Dataset.Series); j++ {
+				sj := c.Dataset.Series[j]
+				same := len(si.Labels) == len(sj.Labels) && si.Labels["__name__"] != sj.Labels["__name__"]
+				for ln, lv := range si.Labels {
+					if ln != "__name__" && sj.Labels[ln] != lv {
 						same = false
 					}
 				}
-				if same {
-					c.Parts[len(c.Parts)-1] = (c.Parts[k] + 1) % c.NParts
+				if same && c.Parts[i] == c.Parts[j] {
+					c.Parts[j] = (c.Parts[i] + 1) % c.NParts
 				}
 			}
 		}
@@ -668,6 +673,8 @@ var c11Biased = []string{
 	// selectors over several metric names: whether equal label sets are detected must not depend on the sharding
 	`rate({__name__=~"m.*"}[2m])`, `sum by (a) (rate({__name__=~"m.*"}[2m]))`, `abs({__name__=~"m.*"})`, `-{__name__=~"m0|m1"}`, `max_over_time({__name__=~"m.+"}[1m])`,
 	`{__name__=~"m.*"} * 2`, `sum by (a, b, c) (changes({__name__=~"m.*"}[2m]))`,
+	// ungrouped reductions over values that may be NaN: the answer must not depend on who comes first
+	`max(m0)`, `min(m0)`, `max(m0) - min(m0)`, `max(m1) / min(m0)`, `min(-m0)`, `sum(m0)`, `avg(m0)`,
 	// parameters that change from step to step (workers must pair every step with its own parameter)
 	`quantile(scalar(sum(m1)) / 1000, m0)`, `quantile by (a) ((time() % 100) / 100, m0)`, `topk(1 + scalar(count(m1)) % 3, m0)`, `clamp_min(m0, time() % 7)`,
 }
@@ -789,8 +796,17 @@ func (c11Prop) Check(c Case) Outcome {
 		}
 		o.Tag(fmt.Sprintf("cell:shards=%d,mod=%d", shards, nser%shards))
 		if d := Compare(got.Res, want.Res); d != nil {
-			if v.name == "permuted-series-order" || true {
-				if Excuse(c, got.Res, want.Res, d, &o) != "" {
+			// Which of several tied series topk/bottomk keep is decided by the order in which they arrive
+			// ("first seen wins", as in the reference): a legitimate difference when the storage order was
+			// changed, none when only the core count, the schedule or the repetition differs. Comparisons
+			// at a rounding threshold stay excused everywhere (summation order follows the sharding).
+			var tmp Outcome
+			if ex := Excuse(c, got.Res, want.Res, d, &tmp); ex != "" {
+				if !strings.HasPrefix(ex, "tie") || strings.HasPrefix(v.name, "permuted-series-order") || v.name == "unrelated-series-added" {
+					o.Inconclusive = tmp.Inconclusive
+					for k, n := range tmp.Counters {
+						o.Count(k, n)
+					}
 					continue
 				}
 			}
